@@ -1140,4 +1140,562 @@ theorem reach_declined {fp : FdlParams} (hfp : FpOk fp) {m m1 : Master} (hr : Re
     exact declined_trans h1 (ih hM')
 
 
+theorem gcHeader_serialize (fp : FdlParams) (pdu : Bytes) (h : pdu.length = 2) :
+    (gcHeader fp).serialize pdu 256 = .ok (frameSpec (gcHeader fp) pdu) := by
+  apply serialize_ok
+  simp [Header.lengthByte, Header.saps, gcHeader, SAP_SLAVE_GLOBAL_CONTROL, SAP_MASTER_MS0, h]
+
+theorem gcDue_ok {fp : FdlParams} (hfp : FpOk fp) {now : Int} (hn : timeB now) {last : Option Int}
+    (hl : ∀ t, last = some t → timeB t) :
+    gcDue fp now last = some (match last with
+      | none => true
+      | some t => decide ((now - t).natAbs ≥ fp.slotUs * 50)) := by
+  cases last with
+  | none => rfl
+  | some t =>
+    have ht := hl t rfl
+    unfold timeB at hn ht
+    have h1 : i64Ok (now - t) = true := by
+      unfold i64Ok; simp only [decide_eq_true_eq]; omega
+    have h2 : ¬ (fp.slotUs * 50 ≥ 2 ^ 64) := by have := hfp.slot; omega
+    simp [gcDue, h1, h2]
+
+/-- Requests of a peripheral: never the global-control SAP, always expecting a reply from its address. -/
+theorem send_header {fp : FdlParams} {op : OpState} {p p' : Peripheral} {h : Header} {pdu : Bytes}
+    (hs : TxSpec fp op p (.send p' h pdu)) :
+    h.dsap ≠ SAP_SLAVE_GLOBAL_CONTROL ∧ expectsReplyOf h = some p.address ∧ h.da = p.address ∧
+      fcbOf h = p.fcb ∧ p'.address = p.address := by
+  cases hs <;>
+    simp [Peripheral.diagHeader, Peripheral.setPrmHeader, Peripheral.chkCfgHeader, Peripheral.dxHeader,
+      SAP_SLAVE_GLOBAL_CONTROL, SAP_SLAVE_DIAGNOSIS, SAP_SLAVE_SET_PRM, SAP_SLAVE_CHK_CFG, SAP_DATA_EXCHANGE,
+      expectsReplyOf, RequestType.expectsReply, fcbOf]
+
+theorem cur_set {m : Master} {i : Nat} {p p' : Peripheral} (hc : m.cur = some (i, p)) (ev : Events) :
+    Master.cur { m with slots := m.slots.set i (some p'), lastEvents := ev } = some (i, p') := by
+  unfold Master.cur at hc ⊢
+  cases hcy : m.cycle with
+  | completed => rw [hcy] at hc; cases hc
+  | dx index =>
+    rw [hcy] at hc
+    simp only at hc ⊢
+    have hi := (curSlot_spec hc).2.2.1
+    rw [curSlot_set hi, hc]
+    simp
+
+theorem declined_step {fp : FdlParams} {m : Master} {i : Nat} {p : Peripheral}
+    (hi : m.slots[i]? = some (some p)) (ht : TxSpec fp m.op p (.decline { p with retry := 0 } none))
+    (m' : Master) (hs : m'.slots = m.slots.set i (some { p with retry := 0 })) (hop : m'.op = m.op)
+    (hgc : m'.lastGc = m.lastGc) : Declined fp m m' := by
+  refine ⟨by rw [hs]; simp, hop, hgc, ?_⟩
+  intro j
+  rw [hs]
+  simp only [List.getElem?_set]
+  by_cases hij : i = j
+  · subst hij
+    have hl : i < m.slots.length := by
+      rcases Nat.lt_or_ge i m.slots.length with h | h
+      · exact h
+      · rw [List.getElem?_eq_none h] at hi; cases hi
+    simp only [hl, if_true]
+    rw [hi]
+    exact .step p _ ht (.refl _)
+  · simp only [hij, if_false]; exact .refl _
+
+/-- The iteration that ends the loop. -/
+theorem final_cases {fp : FdlParams} (hfp : FpOk fp) {m1 : Master} (hM1 : MInv fp m1) {r : MTx}
+    (hf : final fp m1 = some r) :
+    (∃ m', r = .none m' ∧ Declined fp m1 m' ∧ MInv fp m' ∧ m'.lastEvents.peripheral = none) ∨
+    (∃ i p p' h pdu, m1.cur = some (i, p) ∧ TxSpec fp .operate p (.send p' h pdu) ∧
+      r = .send { m1 with slots := m1.slots.set i (some p'), lastEvents := {} } h pdu) ∨
+    (∃ index i p, m1.cycle = .dx index ∧ curSlot m1.slots index = some (i, p) ∧ fp.maxRetry < p.retry ∧
+      r = .none (afterDecline m1 index i p { p with state := .offline, fcb := .first, retry := 0 } (some .offline))) := by
+  unfold final at hf
+  cases hcy : m1.cycle with
+  | completed =>
+    rw [hcy] at hf
+    simp only [Option.some.injEq] at hf
+    left
+    exact ⟨_, hf.symm, ⟨rfl, rfl, rfl, fun _ => .refl _⟩, ⟨hM1.op, hM1.len, hM1.pinv⟩, rfl⟩
+  | dx index =>
+    rw [hcy] at hf
+    simp only at hf
+    rw [visit_eq hM1] at hf
+    cases hc : curSlot m1.slots index with
+    | none =>
+      rw [hc] at hf
+      simp only [Option.some.injEq] at hf
+      left
+      exact ⟨_, hf.symm, ⟨rfl, rfl, rfl, fun _ => .refl _⟩, ⟨hM1.op, hM1.len, hM1.pinv⟩, rfl⟩
+    | some ip =>
+      obtain ⟨i, p⟩ := ip
+      rw [hc] at hf
+      simp only at hf
+      have hi := (curSlot_spec hc).2.2.1
+      have hP := hM1.pinv i p hi
+      have hop : m1.op ≠ .stop := by rw [hM1.op]; decide
+      have hts := tx_spec hfp hop hP
+      cases ht : p.transmit fp m1.op with
+      | panic => rw [ht] at hts; cases hts
+      | send p' h pdu =>
+        rw [ht] at hf hts
+        simp only [Option.some.injEq] at hf
+        right; left
+        rw [hM1.op] at hts
+        exact ⟨i, p, p', h, pdu, by simp [Master.cur, hcy, hc], hts, by rw [← hf, hcy]⟩
+      | decline p' ev =>
+        rw [ht] at hf hts
+        cases ev with
+        | some e =>
+          simp only [Option.some.injEq] at hf
+          obtain ⟨rfl, hr, rfl⟩ := decline_event hts
+          right; right
+          exact ⟨index, i, p, rfl, hc, hr, hf.symm⟩
+        | none =>
+          have hp' := decline_none hts
+          subst hp'
+          obtain ⟨q, hq1, hq2⟩ := tx_pinv hts hP
+          simp only [PTx.after, Option.some.injEq] at hq1
+          subst hq1
+          cases hn : nextSlot m1.slots index with
+          | some n => rw [hn] at hf; cases hf
+          | none =>
+            rw [hn] at hf
+            simp only [Option.some.injEq] at hf
+            left
+            refine ⟨_, hf.symm, ?_, ?_, ?_⟩
+            · exact declined_step hi hts _ (by simp [afterDecline, hn]) (by simp [afterDecline, hn]) (by simp [afterDecline, hn])
+            · exact minv_set (i := i) hM1 hq2 _ (by simp [afterDecline, hn]) (by simp [afterDecline, hn])
+            · simp [afterDecline, hn]
+
+
+/-- The ghost-free part of a `tx` step that all cases share. -/
+def G.polled (g : G) (now : Int) (m' : Master) : G :=
+  { g with m := m', now := some now, collected := g.collected && !g.dirty, dirty := true }
+
+theorem timeOk_bound {g : G} {now : Int} (h : timeOk g now = true) : timeB now := by
+  unfold timeOk at h
+  simp only [Bool.and_eq_true, decide_eq_true_eq] at h
+  exact h.1
+
+/-- Case analysis of a `transmit_telegram` step, done once. -/
+theorem tx_elim {fp : FdlParams} (hfp : FpOk fp) {g g' : G} (hI : Inv fp g) {now : Int} {hp : Bool}
+    (h : gstep fp g (.tx now hp) = .ok g') (P : G → Prop)
+    -- global control
+    (hgc : hp = false → gcDue fp now g.m.lastGc = some true → timeB now →
+      P { g.polled now { g.m with lastGc := some now, lastEvents := {} } with
+          out := none, o := .gc (gcHeader fp) [0x00, 0x00] })
+    -- no telegram, no event: only declines happened
+    (hidle : ∀ m', Declined fp g.m m' → MInv fp m' → m'.lastEvents.peripheral = none →
+      (hp = true ∨ gcDue fp now g.m.lastGc = some false) →
+      P { g.polled now m' with out := none, o := .idle })
+    -- a peripheral transmits
+    (hsend : ∀ m1 i p p' h pdu, Declined fp g.m m1 → MInv fp m1 → m1.cur = some (i, p) →
+      TxSpec fp .operate p (.send p' h pdu) → (hp = true ∨ gcDue fp now g.m.lastGc = some false) →
+      P { g.polled now { m1 with slots := m1.slots.set i (some p'), lastEvents := {} } with
+          out := some p.address, o := .sent i h pdu, sg := g.upd i (sgSend h p') })
+    -- a peripheral is declared offline
+    (hoff : ∀ m1 index i p, Declined fp g.m m1 → MInv fp m1 → m1.cycle = .dx index →
+      curSlot m1.slots index = some (i, p) → fp.maxRetry < p.retry →
+      (hp = true ∨ gcDue fp now g.m.lastGc = some false) →
+      P { g.polled now (afterDecline m1 index i p { p with state := .offline, fcb := .first, retry := 0 } (some .offline)) with
+          out := none, o := .idle, sg := g.upd i sgOffline,
+          produced := g.produced ++ [{ index := i, address := p.address, ev := .offline }] }) :
+    P g' := by
+  simp only [gstep] at h
+  cases hto : timeOk g now with
+  | false => simp [hto] at h
+  | true =>
+    simp only [hto, Bool.not_true, Bool.false_eq_true, if_false] at h
+    have hnow := timeOk_bound hto
+    have hdue := gcDue_ok hfp hnow hI.gcT
+    have hop := hI.m.op
+    -- the two ways `transmit` can go
+    have hloop : (hp = true ∨ gcDue fp now g.m.lastGc = some false) →
+        Master.transmit fp now hp g.m = Master.txLoop fp (g.m.slots.length + 1) g.m := by
+      intro hh
+      unfold Master.transmit
+      simp only [hop, reduceCtorEq, if_false]
+      rcases hh with hh | hh
+      · simp [hh]
+      · cases hp with
+        | true => simp
+        | false => simp [hh]
+    by_cases hg : hp = false ∧ gcDue fp now g.m.lastGc = some true
+    · -- global control
+      obtain ⟨hp0, hg1⟩ := hg
+      have ht : Master.transmit fp now hp g.m =
+          .send { g.m with lastGc := some now, lastEvents := {} } (gcHeader fp) [0x00, 0x00] := by
+        unfold Master.transmit
+        simp only [hop, reduceCtorEq, if_false, hp0, Bool.false_eq_true, hg1, gcPdu]
+        rw [gcHeader_serialize fp _ rfl]
+      rw [ht] at h
+      simp only [gcHeader, if_true, Res3.ok.injEq] at h
+      subst h
+      exact hgc hp0 hg1 hnow
+    · have hh : hp = true ∨ gcDue fp now g.m.lastGc = some false := by
+        cases hp with
+        | true => left; rfl
+        | false =>
+          right
+          rw [hdue] at hg ⊢
+          simp only [true_and, Option.some.injEq] at hg ⊢
+          simpa using hg
+      rw [hloop hh] at h
+      have hnh := txLoop_no_hang hfp (g.m.slots.length + 1) g.m hI.m (by omega) (by intro i _; omega)
+      rcases txLoop_reach fp (g.m.slots.length + 1) g.m with hhang | ⟨m1, hr, hf⟩
+      · exact absurd hhang hnh
+      · have hM1 := reach_minv hfp hr hI.m
+        have hD1 := reach_declined hfp hr hI.m
+        rcases final_cases hfp hM1 hf with ⟨m', hr', hD, hM', hev⟩ | ⟨i, p, p', hd, pdu, hc, hts, hr'⟩ |
+          ⟨index, i, p, hcy, hc, hret, hr'⟩
+        · rw [hr'] at h
+          simp only [hev, Res3.ok.injEq] at h
+          subst h
+          exact hidle m' (declined_trans hD1 hD) hM' hev hh
+        · rw [hr'] at h
+          obtain ⟨hk, hex, _, _, _⟩ := send_header hts
+          simp only [hk, if_false, cur_set hc, hex, Res3.ok.injEq] at h
+          subst h
+          exact hsend m1 i p p' hd pdu hD1 hM1 hc hts hh
+        · rw [hr'] at h
+          have hev : (afterDecline m1 index i p { p with state := .offline, fcb := .first, retry := 0 } (some .offline)).lastEvents.peripheral
+              = some { index := i, address := p.address, ev := .offline } := by
+            unfold afterDecline; cases nextSlot m1.slots index <;> rfl
+          simp only [hev, Res3.ok.injEq] at h
+          subst h
+          exact hoff m1 index i p hD1 hM1 hcy hc hret hh
+
+
+
+theorem rxOk_of_allowed {own a : UInt8} {t : Telegram} (h : replyAllowed own a t = true) : RxOk t := by
+  cases t with
+  | sc => trivial
+  | token _ _ => simp [replyAllowed] at h
+  | data hd pdu =>
+    simp only [replyAllowed, Bool.and_eq_true] at h
+    cases hfc : hd.fc with
+    | response st ss => exact ⟨st, ss, hfc⟩
+    | request _ _ => rw [hfc] at h; simp at h
+
+/-- The master after `receive_reply` for the peripheral in slot `i`. -/
+def afterReply (m : Master) (index i : Nat) (p p' : Peripheral) (ev : Option PEvent) : Master :=
+  { m with slots := m.slots.set i (some p'),
+           cycle := match nextSlot m.slots index with | some n => .dx n | none => .completed,
+           lastEvents := { cycleCompleted := (nextSlot m.slots index).isNone,
+                           peripheral := ev.map fun e => { index := i, address := p.address, ev := e } } }
+
+/-- Case analysis of a `receive_reply` step. -/
+theorem reply_elim {fp : FdlParams} {g g' : G} (hI : Inv fp g) {a : UInt8} {t : Telegram}
+    (h : gstep fp g (.reply a t) = .ok g') (P : G → Prop)
+    (hrep : ∀ index i p p' ev, g.out = some a → g.m.cycle = .dx index → curSlot g.m.slots index = some (i, p) →
+      p.address = a → replyAllowed fp.address a t = true → RxSpec p t p' ev →
+      P { g with m := afterReply g.m index i p p' ev, out := none,
+                 collected := g.collected && !g.dirty, dirty := true,
+                 o := .replied i ev, sg := g.upd i (sgReply t p p'),
+                 produced := g.produced ++ (ev.map fun e => ({ index := i, address := p.address, ev := e } : HEvent)).toList }) :
+    P g' := by
+  simp only [gstep] at h
+  by_cases hc : g.out ≠ some a ∨ replyAllowed fp.address a t = false
+  · simp [hc] at h
+  · rw [if_neg hc] at h
+    have ho : g.out = some a := by
+      by_cases h' : g.out = some a
+      · exact h'
+      · exact absurd (Or.inl h') hc
+    have hal : replyAllowed fp.address a t = true := by
+      cases hr : replyAllowed fp.address a t with
+      | true => rfl
+      | false => exact absurd (Or.inr hr) hc
+    obtain ⟨i, p, hcur, hpa⟩ := hI.out a ho
+    unfold Master.cur at hcur
+    cases hcy : g.m.cycle with
+    | completed => rw [hcy] at hcur; cases hcur
+    | dx index =>
+      rw [hcy] at hcur
+      simp only at hcur
+      have hi := (curSlot_spec hcur).2.2.1
+      have hP := hI.m.pinv i p hi
+      obtain ⟨p', ev, hrx, hspec⟩ := rx_spec hP (rxOk_of_allowed hal)
+      have hl : (g.m.slots.set i (some p')).length ≤ 256 := by rw [List.length_set]; exact hI.m.len
+      have hrr : Master.receiveReply g.m a t = .ok (afterReply g.m index i p p' ev) := by
+        unfold Master.receiveReply
+        simp only [hcy, getAtIndex_eq hI.m.len, hcur, hpa, ne_eq, not_true_eq_false, if_false, hrx,
+          nextCycle_eq hl, nextSlot_set hi, afterReply]
+        cases nextSlot g.m.slots index <;> rfl
+      rw [hrr] at h
+      have hcur' : g.m.cur = some (i, p) := by simp [Master.cur, hcy, hcur]
+      have hl2 : i < g.m.slots.length := (curSlot_spec hcur).2.1
+      simp only [hcur', Res3.ok.injEq] at h
+      subst h
+      have e1 : ((afterReply g.m index i p p' ev).slots.getD i none).getD p = p' := by
+        simp [afterReply, List.getD_eq_getElem?_getD, hl2]
+      have e2 : (afterReply g.m index i p p' ev).lastEvents.peripheral.map (·.ev) = ev := by
+        simp only [afterReply]; cases ev <;> rfl
+      rw [e1, e2]
+      exact hrep index i p p' ev ho hcy hcur hpa hal hspec
+
+
+theorem transmit_ne {fp : FdlParams} (hfp : FpOk fp) {g : G} (hI : Inv fp g) {now : Int} (hnow : timeB now)
+    (hp : Bool) : Master.transmit fp now hp g.m ≠ .panic ∧ Master.transmit fp now hp g.m ≠ .hang := by
+  have hdue := gcDue_ok hfp hnow hI.gcT
+  have hop := hI.m.op
+  by_cases hg : hp = false ∧ gcDue fp now g.m.lastGc = some true
+  · obtain ⟨hp0, hg1⟩ := hg
+    have ht : Master.transmit fp now hp g.m =
+        .send { g.m with lastGc := some now, lastEvents := {} } (gcHeader fp) [0x00, 0x00] := by
+      unfold Master.transmit
+      simp only [hop, reduceCtorEq, if_false, hp0, Bool.false_eq_true, hg1, gcPdu]
+      rw [gcHeader_serialize fp _ rfl]
+    rw [ht]; simp
+  · have ht : Master.transmit fp now hp g.m = Master.txLoop fp (g.m.slots.length + 1) g.m := by
+      unfold Master.transmit
+      simp only [hop, reduceCtorEq, if_false]
+      cases hp with
+      | true => simp
+      | false =>
+        rw [hdue] at hg ⊢
+        simp only [true_and, Option.some.injEq] at hg
+        simp [hg]
+    rw [ht]
+    have hnh := txLoop_no_hang hfp (g.m.slots.length + 1) g.m hI.m (by omega) (by intro i _; omega)
+    refine ⟨?_, hnh⟩
+    rcases txLoop_reach fp (g.m.slots.length + 1) g.m with hhang | ⟨m1, hr, hf⟩
+    · exact absurd hhang hnh
+    · have hM1 := reach_minv hfp hr hI.m
+      rcases final_cases hfp hM1 hf with ⟨m', hr', _⟩ | ⟨i, p, p', hd, pdu, _, _, hr'⟩ | ⟨index, i, p, _, _, _, hr'⟩ <;>
+        (rw [hr']; simp)
+
+/-- No operation the contract allows makes the master panic or spin. -/
+theorem gstep_ok {fp : FdlParams} (hfp : FpOk fp) {g : G} (hI : Inv fp g) (op : Op) :
+    gstep fp g op ≠ .panic ∧ gstep fp g op ≠ .hang := by
+  cases op with
+  | tx now hp =>
+    simp only [gstep]
+    cases hto : timeOk g now with
+    | false => simp
+    | true =>
+      simp only [Bool.not_true, Bool.false_eq_true, if_false]
+      have ⟨h1, h2⟩ := transmit_ne hfp hI (timeOk_bound hto) hp
+      cases ht : Master.transmit fp now hp g.m with
+      | panic => exact absurd ht h1
+      | hang => exact absurd ht h2
+      | none m' =>
+        simp only
+        cases m'.lastEvents.peripheral <;> simp
+      | send m' h pdu =>
+        simp only
+        split
+        · simp
+        · cases m'.cur with
+          | none => simp
+          | some ip => simp
+  | reply a t =>
+    simp only [gstep]
+    by_cases hc : g.out ≠ some a ∨ replyAllowed fp.address a t = false
+    · simp [hc]
+    · rw [if_neg hc]
+      have ho : g.out = some a := by
+        by_cases h' : g.out = some a
+        · exact h'
+        · exact absurd (Or.inl h') hc
+      have hal : replyAllowed fp.address a t = true := by
+        cases hr : replyAllowed fp.address a t with
+        | true => rfl
+        | false => exact absurd (Or.inr hr) hc
+      obtain ⟨i, p, hcur, hpa⟩ := hI.out a ho
+      unfold Master.cur at hcur
+      cases hcy : g.m.cycle with
+      | completed => rw [hcy] at hcur; cases hcur
+      | dx index =>
+        rw [hcy] at hcur
+        simp only at hcur
+        have hi := (curSlot_spec hcur).2.2.1
+        obtain ⟨p', ev, hrx, _⟩ := rx_spec (hI.m.pinv i p hi) (rxOk_of_allowed hal)
+        have hl : (g.m.slots.set i (some p')).length ≤ 256 := by rw [List.length_set]; exact hI.m.len
+        have hrr : Master.receiveReply g.m a t = .ok (afterReply g.m index i p p' ev) := by
+          unfold Master.receiveReply
+          simp only [hcy, getAtIndex_eq hI.m.len, hcur, hpa, ne_eq, not_true_eq_false, if_false, hrx,
+            nextCycle_eq hl, nextSlot_set hi, afterReply]
+          cases nextSlot g.m.slots index <;> rfl
+        rw [hrr]
+        simp only
+        cases g.m.cur <;> simp
+  | timeout a =>
+    simp only [gstep]
+    split <;> simp
+  | take => simp [gstep]
+  | writeQ slot bs =>
+    simp only [gstep]
+    cases g.m.writePiQ slot bs <;> simp
+  | diagReq slot =>
+    simp only [gstep]
+    cases g.m.requestDiagnostics slot <;> simp
+
+
+theorem cur_of_set {m : Master} {j : Nat} {p0 q : Peripheral} (hj : m.slots[j]? = some (some p0))
+    (m' : Master) (hs : m'.slots = m.slots.set j (some q)) (hc : m'.cycle = m.cycle) :
+    m'.cur = m.cur.map fun ip => if ip.1 = j then (ip.1, q) else ip := by
+  unfold Master.cur
+  rw [hc, hs]
+  cases m.cycle with
+  | completed => rfl
+  | dx index => simp only; rw [curSlot_set hj]
+
+theorem out_of_set {m : Master} {j : Nat} {p0 q : Peripheral} (hj : m.slots[j]? = some (some p0))
+    (ha : q.address = p0.address) (m' : Master) (hs : m'.slots = m.slots.set j (some q)) (hc : m'.cycle = m.cycle)
+    {a : UInt8} (h : ∃ i p, m.cur = some (i, p) ∧ p.address = a) : ∃ i p, m'.cur = some (i, p) ∧ p.address = a := by
+  obtain ⟨i, p, h1, h2⟩ := h
+  rw [cur_of_set hj m' hs hc, h1]
+  simp only [Option.map_some]
+  by_cases hij : i = j
+  · subst hij
+    refine ⟨i, q, by simp, ?_⟩
+    unfold Master.cur at h1
+    cases hcy : m.cycle with
+    | completed => rw [hcy] at h1; cases h1
+    | dx index =>
+      rw [hcy] at h1
+      have := (curSlot_spec h1).2.2.1
+      rw [hj] at this
+      simp only [Option.some.injEq] at this
+      subst this
+      rw [ha]; exact h2
+  · exact ⟨i, p, by simp [hij], h2⟩
+
+theorem inv_step {fp : FdlParams} (hfp : FpOk fp) {g g' : G} (hI : Inv fp g) (op : Op)
+    (h : gstep fp g op = .ok g') : Inv fp g' := by
+  cases op with
+  | tx now hp =>
+    refine tx_elim hfp hI h (Inv fp) ?_ ?_ ?_ ?_
+    · intro _ _ hn
+      exact ⟨⟨hI.m.op, hI.m.len, hI.m.pinv⟩, (by intro a h; cases h), (by
+        intro t ht; simp only [G.polled, Option.some.injEq] at ht; subst ht; exact hn)⟩
+    · intro m' hD hM' _ _
+      exact ⟨hM', (by intro a h; cases h), (by
+        intro t ht; simp only [G.polled] at ht; rw [hD.gc] at ht; exact hI.gcT t ht)⟩
+    · intro m1 i p p' hd pdu hD hM1 hc hts _
+      have hi : m1.slots[i]? = some (some p) := by
+        unfold Master.cur at hc
+        cases hcy : m1.cycle with
+        | completed => rw [hcy] at hc; cases hc
+        | dx index => rw [hcy] at hc; exact (curSlot_spec hc).2.2.1
+      obtain ⟨q, hq1, hq2⟩ := tx_pinv hts (hM1.pinv i p hi)
+      simp only [PTx.after, Option.some.injEq] at hq1
+      subst hq1
+      refine ⟨minv_set (i := i) hM1 hq2 _ rfl rfl, ?_, ?_⟩
+      · intro a ha
+        simp only [Option.some.injEq] at ha
+        subst ha
+        exact ⟨i, _, cur_set hc _, (send_header hts).2.2.2.2⟩
+      · intro t ht; simp only [G.polled] at ht; rw [hD.gc] at ht; exact hI.gcT t ht
+    · intro m1 index i p hD hM1 hcy hc hr _
+      have hi := (curSlot_spec hc).2.2.1
+      have hP := hM1.pinv i p hi
+      have hq : PInv fp { p with state := .offline, fcb := .first, retry := 0 } :=
+        ⟨by simp, by simp, by simp, hP.ext, hP.prm, hP.cfg, hP.piq, hP.addr⟩
+      refine ⟨minv_set (i := i) hM1 hq _ ?_ ?_, (by intro a h; cases h), ?_⟩
+      · simp only [G.polled, afterDecline]; cases nextSlot m1.slots index <;> rfl
+      · simp only [G.polled, afterDecline]; cases nextSlot m1.slots index <;> rfl
+      · intro t ht
+        have : (afterDecline m1 index i p { p with state := .offline, fcb := .first, retry := 0 } (some .offline)).lastGc = m1.lastGc := by
+          simp only [afterDecline]; cases nextSlot m1.slots index <;> rfl
+        simp only [G.polled, this] at ht
+        rw [hD.gc] at ht; exact hI.gcT t ht
+  | reply a t =>
+    refine reply_elim hI h (Inv fp) ?_
+    intro index i p p' ev _ hcy hc hpa _ hspec
+    have hi := (curSlot_spec hc).2.2.1
+    have hq := rx_pinv hspec (hI.m.pinv i p hi)
+    exact ⟨minv_set (i := i) hI.m hq _ rfl rfl, (by intro a h; cases h), hI.gcT⟩
+  | timeout a =>
+    simp only [gstep] at h
+    split at h
+    · cases h
+    · simp only [Res3.ok.injEq] at h; subst h
+      exact ⟨hI.m, (by intro a h; cases h), hI.gcT⟩
+  | take =>
+    simp only [gstep, Master.takeLastEvents, Res3.ok.injEq] at h
+    subst h
+    exact ⟨⟨hI.m.op, hI.m.len, hI.m.pinv⟩, hI.out, hI.gcT⟩
+  | writeQ slot bs =>
+    simp only [gstep] at h
+    cases hw : g.m.writePiQ slot bs with
+    | none => rw [hw] at h; cases h
+    | some m' =>
+      rw [hw] at h
+      simp only [Res3.ok.injEq] at h; subst h
+      unfold Master.writePiQ Master.peripheral? at hw
+      cases hs : g.m.slots.getD slot none with
+      | none => rw [hs] at hw; cases hw
+      | some p =>
+        rw [hs] at hw
+        simp only at hw
+        split at hw
+        · rename_i hlen
+          simp only [Option.some.injEq] at hw; subst hw
+          have hj : g.m.slots[slot]? = some (some p) := by
+            rw [List.getD_eq_getElem?_getD] at hs
+            cases hh : g.m.slots[slot]? with
+            | none => rw [hh] at hs; cases hs
+            | some x => rw [hh] at hs; simp only [Option.getD_some] at hs; rw [hs]
+          have hP := hI.m.pinv slot p hj
+          have hq : PInv fp { p with piQ := bs } :=
+            ⟨hP.retry_le, hP.off_retry, hP.fcb, hP.ext, hP.prm, hP.cfg, by simp only; rw [hlen]; exact hP.piq, hP.addr⟩
+          refine ⟨minv_set (i := slot) hI.m hq _ rfl rfl, ?_, hI.gcT⟩
+          intro a ha
+          exact out_of_set (q := { p with piQ := bs }) hj rfl { g.m with slots := g.m.slots.set slot (some { p with piQ := bs }) } rfl rfl (hI.out a ha)
+        · cases hw
+  | diagReq slot =>
+    simp only [gstep] at h
+    cases hw : g.m.requestDiagnostics slot with
+    | none => rw [hw] at h; cases h
+    | some m' =>
+      rw [hw] at h
+      simp only [Res3.ok.injEq] at h; subst h
+      unfold Master.requestDiagnostics Master.peripheral? at hw
+      cases hs : g.m.slots.getD slot none with
+      | none => rw [hs] at hw; cases hw
+      | some p =>
+        rw [hs] at hw
+        simp only [Option.some.injEq] at hw; subst hw
+        have hj : g.m.slots[slot]? = some (some p) := by
+          rw [List.getD_eq_getElem?_getD] at hs
+          cases hh : g.m.slots[slot]? with
+          | none => rw [hh] at hs; cases hs
+          | some x => rw [hh] at hs; simp only [Option.getD_some] at hs; rw [hs]
+        have hP := hI.m.pinv slot p hj
+        have hq : PInv fp { p with diagNeeded := true } :=
+          ⟨hP.retry_le, hP.off_retry, hP.fcb, hP.ext, hP.prm, hP.cfg, hP.piq, hP.addr⟩
+        refine ⟨minv_set (i := slot) hI.m hq _ rfl rfl, ?_, hI.gcT⟩
+        intro a ha
+        exact out_of_set (q := { p with diagNeeded := true }) hj rfl { g.m with slots := g.m.slots.set slot (some { p with diagNeeded := true }) } rfl rfl (hI.out a ha)
+
+/-- Start states: a master in Operate whose slots hold freshly constructed peripherals. -/
+structure InitOk (fp : FdlParams) (slots : List (Option Peripheral)) : Prop where
+  len : slots.length ≤ 256
+  fresh : ∀ (i : Nat) (p : Peripheral), slots[i]? = some (some p) →
+    PInv fp p ∧ p.state = .offline ∧ p.retry = 0 ∧ p.fcb = .first ∧ p.diagNeeded = false ∧ p.diagInFlight = false
+
+theorem inv_init {fp : FdlParams} {slots : List (Option Peripheral)} (h : InitOk fp slots) (gr : Bool) :
+    Inv fp (G.init slots gr) :=
+  ⟨⟨rfl, h.len, fun i p hi => (h.fresh i p hi).1⟩, (by intro a ha; cases ha), (by intro t ht; cases ht)⟩
+
+theorem inv_run {fp : FdlParams} (hfp : FpOk fp) (ops : List Op) : ∀ (g : G), Inv fp g →
+    grun fp g ops ≠ .panic ∧ grun fp g ops ≠ .hang ∧ ∀ g', grun fp g ops = .ok g' → Inv fp g' := by
+  induction ops with
+  | nil =>
+    intro g hI
+    simp only [grun]
+    exact ⟨(by intro h; cases h), (by intro h; cases h), (by intro g' h; cases h; exact hI)⟩
+  | cons op ops ih =>
+    intro g hI
+    simp only [grun]
+    have ⟨h1, h2⟩ := gstep_ok hfp hI op
+    cases hs : gstep fp g op with
+    | ok g1 => exact ih g1 (inv_step hfp hI op hs)
+    | panic => exact absurd hs h1
+    | hang => exact absurd hs h2
+    | refused => exact ⟨(by intro h; cases h), (by intro h; cases h), (by intro g' h; cases h)⟩
+
+
 end PV.Dp
